@@ -7,6 +7,7 @@ pub mod c04;
 pub mod c05;
 pub mod c06;
 pub mod c07;
+pub mod c07l;
 pub mod c08;
 pub mod c09;
 pub mod c10;
